@@ -107,9 +107,13 @@ def check(c):
         elif c["order"] == "shuffled":
             rs.shuffle(samples)
         X = rs.rand(n, 1)
+        # ONE criterion object initialised again and again, as the tree builder does (root first, then every sub-range): what an earlier
+        # initialisation left in its buffers must not show in a later one
+        shared = (SimpleRegressorCriterionFast if c["crit"] == "fast" else SimpleRegressorCriterion)(1, n)
+        C._test_criterion_init(shared, y.reshape(-1, 1).copy(), w.copy(), float(w.sum()), samples, 0, n)
         for start in range(0, n - 1):
             for end in range(start + 2, n + 1):
-                crit = (SimpleRegressorCriterionFast if c["crit"] == "fast" else SimpleRegressorCriterion)(1, n)
+                crit = shared if (start + end + n) % 2 == 0 else (SimpleRegressorCriterionFast if c["crit"] == "fast" else SimpleRegressorCriterion)(1, n)
                 C._test_criterion_init(crit, y.reshape(-1, 1).copy(), w.copy(), float(w.sum()), samples, start, end)
                 idx = [int(i) for i in samples[start:end]]
                 ys, ws = [Fraction(y[i]) for i in idx], [Fraction(w[i]) for i in idx]
@@ -119,6 +123,10 @@ def check(c):
                 imp = C._test_criterion_node_impurity(crit)
                 if abs(imp - float(wmse(ys, ws))) > 1e-9:
                     return dict(**{"class": "node-impurity"}, what="%s (start=%d,end=%d): impurity %r, weighted MSE %r" % (c["crit"], start, end, imp, float(wmse(ys, ws))))
+                # boundary pos == start (the state right after init / reset): nothing on the left, the whole node on the right
+                got0 = C._test_criterion_impurity_improvement(crit, imp, 0.0, imp)
+                if abs(got0) > 1e-9:
+                    return dict(**{"class": "improvement"}, what="%s (start=%d,pos=start,end=%d): improvement %r for an empty left child, expected 0" % (c["crit"], start, end, got0))
                 for pos in range(start + 1, end):
                     C._test_criterion_update(crit, pos)
                     left, right = C._test_criterion_node_impurity_children(crit)
